@@ -597,6 +597,8 @@ from harness import runner, channels, rdfmodel as M
 cases = json.load(open(sys.argv[1]))
 out = []
 for c in cases:
+    if c.get("targetsFile"):
+        c["targetsPath"] = sys.argv[2] + ".classes_%%s.txt" %% c["id"]      # (one file per seed run and case)
     if c.get("endpoint"):
         r = channels._run_endpoint({"id": c["id"], "case": c, "cached": True})
         text_sha = r.get("text_sha", "")
@@ -649,6 +651,23 @@ def check_c19(out, tier):
             cfg["nsDict"] = gen.NSDICT
         c = gen.case("c19e%d" % i, T, **cfg)
         c["endpoint"] = True
+        cases.append(c)
+    # the target classes listed in a file (file_target_classes), several classes, local and behind the endpoint
+    for i in range(12 * k):
+        T = gen.multi_graph(rnd) if i % 4 == 3 else endpoint_graph(rnd)
+        classes = gen.classes_of(T)
+        for j in range(3):       # a few more classes, so that the file has enough lines for an order to show
+            x = M.iri(M.EX + "extra%d" % j)
+            T += [(x, M.RDF_TYPE, M.iri(M.EX + "Z%d" % j)), (x, M.EX + "p0", M.lit("s%d" % j))]
+            classes.append(M.EX + "Z%d" % j)
+        cfg = gen.switches(rnd)
+        cfg["mode"] = "classes"
+        cfg["targets"] = rnd.sample(classes, rnd.randint(max(2, len(classes) - 2), len(classes)))
+        cfg["spelling"] = rnd.choice(["full", "bracket", "prefixed"])
+        cfg["nsDict"] = gen.NSDICT
+        c = gen.case("c19c%d" % i, T, **cfg)
+        c["targetsFile"] = True
+        c["endpoint"] = i % 4 != 3
         cases.append(c)
     for i in range(6 * k):        # selectors that answer a node several times, local and on the endpoint
         c = gen.tied_focus_case(rnd, "c19t%d" % i)
